@@ -56,6 +56,7 @@ def strategy(tier):
         'term': st.sampled_from(['body', 'body', 'eofnl', 'eof']),
         'nl': st.sampled_from(['\n', '\n', '\r\n']),
         'yaml': st.sampled_from([0, 0, 1]),
+        'glued': st.sampled_from([False, False, True]),     # a key-shaped line directly after the closing fence (no blank line): it belongs to the body
         'dashes': st.sampled_from([3, 3, 3, 4, 7, 2, 1]),     # length of the opening fence; below three dashes the line is no fence, and then queries and conversion must agree on that
         'body': st.sampled_from(['Body text here.', '# Heading\n\ntext *em* &amp; more', 'a: not meta\n\n* list', '   indented body', '中文 body']),
         'ops': st.lists(opst, max_size=4),
@@ -139,6 +140,8 @@ def build(case):
         src += nl
         end = len(src.encode())
         body = case.get('blank', '') + nl + case['body'].replace('\n', nl) + nl
+        if fence_close == '---' and case.get('glued') and case.get('dashes', 3) >= 3:
+            body = 'glued: line after the fence' + nl + body
         src += body
     elif term == 'eofnl':
         src += nl
